@@ -253,7 +253,9 @@ class ReactionQueryReader(object):
         return radical, charge, valence
 
     def ReadAtomType(self, tree):
-        assert tree[0][0] == 'Symbols'
+        if tree[0][0] != 'Symbols':
+            raise NotImplementedError("AtomTypeModify: atom prefix",
+                                      "not supported")
         symbol = tree[0][1][0]
         radical, charge, valence = 0, 0, 0
 
